@@ -580,3 +580,72 @@ def derivative(r: Rat, atom) -> Rat:
     """d r / d atom, treating every other atom (including opaque calls) as constant."""
     dn, dd = poly_derivative(r.n, atom), poly_derivative(r.d, atom)
     return Rat(dn * r.d - r.n * dd, r.d * r.d)
+
+
+def _proportion(u: Rat, base: Rat):
+    """the constant q with u == q*base, or None"""
+    P, Q = u.n * base.d, base.n * u.d
+    if Q.is_zero() or P.is_zero():
+        return None
+    m0 = min(Q.t, key=repr)
+    if m0 not in P.t:
+        return None
+    q = Fraction(P.t[m0]) / Fraction(Q.t[m0])
+    qp = Poly()
+    qp.t = {m: c * q for m, c in Q.t.items()}
+    return q if (P - qp).is_zero() else None
+
+
+def normalise_exp(r: Rat) -> Rat:
+    """Rewrite the exp atoms of r over common bases: exp atoms whose arguments are rational multiples of one another
+    become integer powers (negative powers divide) of one exp(g*b), so that exp(x)*exp(y) and exp(x+y), exp(-x) and
+    1/exp(x) have one normal form.  Arguments that are not proportional stay independent atoms."""
+    exps = [a for a in r.atoms() if isinstance(a, tuple) and len(a) == 3 and a[:2] == ("call", "exp")]
+    if len(exps) < 1:
+        return r
+    groups: list[list] = []  # [base argument, [(atom, ratio Fraction)]]
+    for a in sorted(exps, key=repr):
+        u = a[2]
+        for g in groups:
+            q = _proportion(u, g[0])
+            if q is not None:
+                g[1].append((a, q))
+                break
+        else:
+            groups.append([u, [(a, Fraction(1))]])
+    mapping = {}
+    for base, members in groups:
+        if len(members) == 1 and members[0][1] == 1 and base.leading_sign() >= 0:
+            continue
+        # unit = gcd of the ratios, sign chosen so that the base argument has a positive leading coefficient
+        from math import gcd
+
+        den = 1
+        for _, q in members:
+            den = den * q.denominator // gcd(den, q.denominator)
+        num = 0
+        for _, q in members:
+            num = gcd(num, abs(int(q * den)))
+        unit = Fraction(num, den)
+        b = base * unit
+        if b.leading_sign() < 0:
+            b, unit = -b, -unit
+        X = Rat.atom(("call", "exp", b))
+        for a, q in members:
+            e = q / unit
+            assert e.denominator == 1
+            e = int(e)
+            mapping[a] = (X ** e) if e >= 0 else Rat.const(1) / (X ** (-e))
+    if not mapping:
+        return r
+
+    def fix(p: Poly) -> Rat:
+        total = Rat.const(0)
+        for m, c in p.t.items():
+            term = Rat.const(c)
+            for a, e in m:
+                term = term * ((mapping[a] if a in mapping else Rat.atom(a)) ** e)
+            total = total + term
+        return total
+
+    return fix(r.n) / fix(r.d)
